@@ -6,9 +6,10 @@ VERIF = os.path.dirname(os.path.dirname(os.path.abspath(__file__)))
 
 
 class Instance:
-    __slots__ = ("rule", "key", "ok", "msg", "span", "status", "nontrivial", "detail")
+    __slots__ = ("rule", "key", "ok", "msg", "span", "status", "nontrivial", "detail", "alt")
 
-    def __init__(self, rule, key, ok, msg, span, nontrivial=True, detail=None):
+    def __init__(self, rule, key, ok, msg, span, nontrivial=True, detail=None, alt=None):
+        self.alt = alt
         self.rule = rule
         self.key = key
         self.ok = ok
@@ -46,8 +47,8 @@ class Report:
     def ok(self, rule, key, msg, span=None, nontrivial=True, detail=None):
         self.instances.append(Instance(rule, self._uniq(rule, key), True, msg, span, nontrivial, detail))
 
-    def bad(self, rule, key, msg, span=None, detail=None):
-        self.instances.append(Instance(rule, self._uniq(rule, key), False, msg, span, True, detail))
+    def bad(self, rule, key, msg, span=None, detail=None, alt=None):
+        self.instances.append(Instance(rule, self._uniq(rule, key), False, msg, span, True, detail, alt))
 
     def check(self, rule, key, cond, msg_ok, msg_bad=None, span=None, nontrivial=True, detail=None):
         if cond:
@@ -96,6 +97,9 @@ class Report:
             if inst.ok:
                 continue
             fk = inst.full_key(self.prop)
+            ak = "%s|%s|%s" % (self.prop, inst.rule, inst.alt) if inst.alt else None
+            if fk not in rev and fk not in kno and ak is not None and (ak in rev or ak in kno):
+                fk = ak
             if fk in rev:
                 inst.status = "reviewed"
                 reviewed_used.append({"key": fk, "tag": rev[fk].get("tag"), "argument": rev[fk].get("argument")})
